@@ -102,4 +102,13 @@ PROPS = {
         "trusted_base": BASE_TRUST + ["header tables (DXGI codes, FourCCs, mask rows, DX10->DX9 conversion rows) regenerated from /repo every run (gen/GenHeader.v); mask rows are scanned from src/detect.rs and each row re-validated against Format::from_header"],
         "assumptions": ["known findings F6a / F6b (headers the container cannot represent) are reported as KNOWN-FINDING"],
     },
+    "C18": {
+        "kernel_sample": 150,
+        "rule": "valid headers (all 73 formats, all valid DXGI codes, FourCCs, mask rows; image / cube / volume / arrays / 1D; sizes 1..40; mip counts 1, 1..8, full chain) x each known writer defect "
+                "(array size 0, 6-for-one-cube, mip count -1 / +1 / dropped / full chain declared, header size 24, pixel-format size 0 / 24, missing FourCC flag, bad alpha mode, 3D array size, array 0 combined with a mip defect) "
+                "x file_len in {exact, None, +1, -1, arbitrary}, parsed permissively (and a quarter also strictly); plus every valid header parsed permissively with the exact length and with None; plus random raw headers; "
+                "observed: verdict, parsed header, pixel info, format, bytes written back, layout length; distinct = distinct case lines",
+        "trusted_base": BASE_TRUST + ["header tables regenerated from /repo every run (gen/GenHeader.v)"],
+        "assumptions": ["the side conditions of the repair theorems (e.g. the defective header's own layout length differs from the file's) are written out in the statements"],
+    },
 }
